@@ -54,6 +54,15 @@ def run(tier, v):
                    nx, exhaustive=not capped, ops_in_fault_free_run=len(base.trace), files_edited_fault_free=edited)
         if len(v.coverage["samples"]) < 6:
             v.sample({"scenario": sc.name, "fault_free_trace": ["%d:%s %s" % (o.k, o.op, o.path) for o in base.trace if o.cls != "log"][:60]})
+    # the temporary directory on another file system is an environment, not a fault: every rename into the tree fails with EXDEV
+    # in every execution, and the single deviations are explored on top of that
+    import errno
+    for n in (["S1", "S2", "S5"] if tier == "thorough" else ["S1", "S2"]):
+        sc = scenarios.ALL[n]()
+        sc.name += "+tmpdir-on-other-fs"
+        base, nx, capped = ex.explore(sc, menu, bound, oracle, base_plan=[(None, "sticky:rename:%d" % errno.EXDEV)])
+        v.subspace("%s: every rename fails with EXDEV (temp dir on another file system) + every op x {kill, fail, short}, bound %d" % (sc.name, bound),
+                   nx, exhaustive=not capped, ops_in_fault_free_run=len(base.trace))
     ex.close()
     v.coverage["rule"] = ("one evaluation = one execution of the real release binary on a fresh copy of a scenario tree under the "
                           "interposer with a plan of <= bound deviations; distinct = distinct (scenario, termination, source-tree bytes)")
